@@ -68,6 +68,7 @@ STAGES = {
     "C17": [S("grid", "^TestC17$", shards=(4, 16)),
             S("neighbours", "^TestC17Neighbours$|^TestC17Large$")],
     "C01": [S("sweep", "^TestC01Sweep$", shards=(3, 9)),
+            S("sender-dies", "^TestC01SenderDies$"),
             S("roundtrip", "^TestC01$", quick=250, thorough=4000, shards=(6, 16), timeout=("15m", "90m"))],
     "C02": [S("lag", "^TestC02Lag$"),
             S("programs", "^TestC02$", quick=1500, thorough=200000, shards=(4, 16))],
